@@ -16,6 +16,10 @@ CLAIMED = {
    text="Kernel-checked theorems over any commutative ring, any nesting depth, offsets and mode count: the circuit matrix equals the ordered product of the leaves' matrices embedded at their absolute ranges (cmat_flatten), is unitary when the leaves are, merge = nest, barriers are neutral, add rejects exactly misfitting ranges. The model's construction semantics (add/merge/nest, //, @, barrier, copy) is tied to /repo by running random straight-line programs over named circuit variables on both sides and comparing every variable's matrix and component listing after every statement.",
    note="All theorems closed under the global context.",
    tech="Coq proof by induction over the circuit tree + extracted-model differential correspondence"),
+ "C02": dict(cat="proof", ref="DESIGN.md §7 C02",
+   text="Kernel-checked theorems over any commutative ring and all sizes: the amplitude specification (multiset expansion permS) equals the textbook Laplace permanent of the explicit submatrix U[t|s] (permR_permS); the model of Naive (_compute_submatrix + permanent, with its n=0 / n-differs special cases) equals it; the SLOS coefficient recursion times prod t! equals it (bunched inputs/outputs included); amplitudes vanish when photon numbers differ; pruning the SLOS state space by any FSMask-style mask (closed under removing a photon) leaves the values of kept states unchanged. Every engine of /repo (Naive, SLOS, SLAP, MPS at full bond dimension, Stepper) is compared on every run with the extracted specification on all output states of sampled (circuit, input) pairs, bulk order, exact mass 1, masks, white-box submatrix and SLOS coefficients.",
+   note="All theorems closed under the global context. SLAP, MPS and the native SLOS layer / permanent_cx have no algorithmic model: they are compared with the proved specification only. Full-distribution normalisation for all n is checked exactly per instance (mass = 1 as rationals), not proved.",
+   tech="Coq proof (Laplace permanent = multiset expansion = SLOS recursion; mask soundness) + extracted-spec differential correspondence on all engines"),
 }
 REASON_PENDING = "not yet built in this development (see DESIGN.md §10 for the build order); no check is claimed"
 
